@@ -35,6 +35,7 @@ import RosuModel.Props.C02FinalScroll
 import RosuModel.Props.C02FinalScrollToy
 import RosuModel.Props.C02FinalScrollExact
 import RosuModel.Props.C02IeeeTiming
+import RosuModel.Props.C02IeeeTiming2
 import RosuModel.Props.C02Capstone
 import RosuModel.Props.C02CapstoneToy
 import RosuModel.Props.C02CapstoneToyRt
